@@ -33,12 +33,346 @@ Proof.
   cbn [fst snd] in H. rewrite Hid in H. cbn [negb orb] in H. apply nodupb_sound. exact H.
 Qed.
 
-Lemma check_params_sound k :
-  snd (check_params k) = true -> p_norep k = true ->
-  (exists n, In n (p_counts k) /\ n < p_nsamples k) -> p_raised k = true.
+(* ---- validate_params' sample-info checks ------------------------------------ *)
+Require Import Coq.Sorting.Permutation.
+
+Lemma count_by_cons m p r info :
+  count_by m p (r :: info) = (if m p (snd r) then 1 else 0) + count_by m p info.
 Proof.
-  unfold check_params, must_reject. cbn [snd]. intros H Hn [n [Hin Hlt]]. rewrite Hn in H. cbn [andb] in H.
-  assert (E : existsb (fun n => n <? p_nsamples k) (p_counts k) = true).
-  { apply existsb_exists. exists n. split; [exact Hin|]. apply Z.ltb_lt. exact Hlt. }
-  rewrite E in H. cbn in H. exact H.
+  unfold count_by, lenZ. cbn [filter]. cbv beta. destruct (m p (snd r)); cbn [length]; rewrite ?Nat2Z.inj_succ; lia.
+Qed.
+
+Lemma count_by_nonneg m p info : 0 <= count_by m p info.
+Proof. unfold count_by, lenZ. lia. Qed.
+
+Lemma count_by_app m p a b : count_by m p (a ++ b) = count_by m p a + count_by m p b.
+Proof.
+  induction a as [|r a IH]; [cbn [app]; unfold count_by at 2; cbn; lia|].
+  cbn [app]. rewrite !count_by_cons, IH. lia.
+Qed.
+
+(* the count is the number of lines with exactly that label, whatever their order *)
+Lemma count_by_perm m p a b : Permutation a b -> count_by m p a = count_by m p b.
+Proof.
+  induction 1 as [|x a b _ IH|x y a|a b c _ IH1 _ IH2]; [reflexivity| | |congruence].
+  - rewrite !count_by_cons, IH. reflexivity.
+  - rewrite !count_by_cons. lia.
+Qed.
+
+(* a line counts for label p iff its label IS p *)
+Lemma count_label_cons p r info :
+  count_label p (r :: info) = (if snd r =? p then 1 else 0) + count_label p info.
+Proof. unfold count_label. rewrite count_by_cons, (Z.eqb_sym p). reflexivity. Qed.
+
+Lemma count_label_zero p info :
+  count_label p info = 0 <-> forall r, In r info -> snd r <> p.
+Proof.
+  induction info as [|x info IH].
+  - split; [intros _ r []|reflexivity].
+  - rewrite count_label_cons. pose proof (count_by_nonneg Z.eqb p info) as Hn. fold (count_label p info) in Hn.
+    destruct (snd x =? p) eqn:E.
+    + apply Z.eqb_eq in E. split; [lia|]. intros H. exfalso. apply (H x); [left; reflexivity|exact E].
+    + apply Z.eqb_neq in E. rewrite Z.add_0_l, IH. split.
+      * intros H r [<-|Hr]; [exact E|apply H, Hr].
+      * intros H r Hr. apply H. right. exact Hr.
+Qed.
+
+Lemma memZ_spec x l : memZ x l = true <-> In x l.
+Proof.
+  unfold memZ. rewrite existsb_exists. split.
+  - intros [y [Hy E]]. apply Z.eqb_eq in E. subst. exact Hy.
+  - intros H. exists x. split; [exact H|apply Z.eqb_refl].
+Qed.
+
+(* the second loop: verdict classes *)
+Lemma cmp_accept_iff m norep n info src :
+  fst (check_model_pops m norep n info src) = V_accept <->
+  forall p, In p src -> count_by m p info <> 0 /\ (norep = true -> n <= count_by m p info).
+Proof.
+  induction src as [|q src IH]; cbn [check_model_pops].
+  - split; [intros _ p []|reflexivity].
+  - destruct (count_by m q info =? 0) eqn:E0.
+    + apply Z.eqb_eq in E0. cbn [fst]. split; [discriminate|]. intros H.
+      destruct (H q (or_introl eq_refl)) as [Hq _]. contradiction.
+    + apply Z.eqb_neq in E0. destruct (norep && (count_by m q info <? n)) eqn:E1.
+      * apply andb_true_iff in E1. destruct E1 as [En El]. apply Z.ltb_lt in El. cbn [fst].
+        split; [discriminate|]. intros H. destruct (H q (or_introl eq_refl)) as [_ Hq]. specialize (Hq En). lia.
+      * rewrite IH. split.
+        -- intros H p [<-|Hp]; [|apply H, Hp]. split; [exact E0|]. intros En. rewrite En in E1. cbn [andb] in E1.
+           apply Z.ltb_ge in E1. exact E1.
+        -- intros H p Hp. apply H. right. exact Hp.
+Qed.
+
+Lemma cmp_insufficient m norep n info src p :
+  check_model_pops m norep n info src = (V_insufficient, p) ->
+  norep = true /\ In p src /\ 0 < count_by m p info < n.
+Proof.
+  induction src as [|q src IH]; cbn [check_model_pops]; [discriminate|].
+  destruct (count_by m q info =? 0) eqn:E0; [discriminate|]. apply Z.eqb_neq in E0.
+  destruct (norep && (count_by m q info <? n)) eqn:E1.
+  - intros H. inversion H; subst q. apply andb_true_iff in E1. destruct E1 as [En El]. apply Z.ltb_lt in El.
+    pose proof (count_by_nonneg m p info). repeat split; [exact En|left; reflexivity|lia|exact El].
+  - intros H. destruct (IH H) as [A [B C]]. repeat split; [exact A|right; exact B|apply C|apply C].
+Qed.
+
+Lemma cmp_pop_absent m norep n info src p :
+  check_model_pops m norep n info src = (V_pop_absent, p) -> In p src /\ count_by m p info = 0.
+Proof.
+  induction src as [|q src IH]; cbn [check_model_pops]; [discriminate|].
+  destruct (count_by m q info =? 0) eqn:E0.
+  - intros H. inversion H; subst q. apply Z.eqb_eq in E0. split; [left; reflexivity|exact E0].
+  - destruct (norep && (count_by m q info <? n)); [discriminate|].
+    intros H. destruct (IH H) as [A B]. split; [right; exact A|exact B].
+Qed.
+
+Lemma cmp_classes m norep n info src :
+  let c := fst (check_model_pops m norep n info src) in c = V_accept \/ c = V_pop_absent \/ c = V_insufficient.
+Proof.
+  induction src as [|q src IH]; cbn [check_model_pops]; [left; reflexivity|].
+  destruct (count_by m q info =? 0); [right; left; reflexivity|].
+  destruct (norep && (count_by m q info <? n)); [right; right; reflexivity|exact IH].
+Qed.
+
+(* with --no_replacement the second loop rejects iff some listed population has fewer than n lines
+   (no precondition for "if"; n >= 1 for "only if": a population without any line is rejected too) *)
+Lemma cmp_rejects m n info src :
+  (exists p, In p src /\ count_by m p info < n) -> fst (check_model_pops m true n info src) <> V_accept.
+Proof.
+  intros [p [Hp Hlt]] H. rewrite cmp_accept_iff in H. destruct (H p Hp) as [_ Hge]. specialize (Hge eq_refl). lia.
+Qed.
+
+Lemma cmp_reject_only_if m n info src : 1 <= n ->
+  fst (check_model_pops m true n info src) <> V_accept -> exists p, In p src /\ count_by m p info < n.
+Proof.
+  intros Hn. induction src as [|q src IH]; cbn [check_model_pops]; [intros H; exfalso; apply H; reflexivity|].
+  destruct (count_by m q info =? 0) eqn:E0.
+  - apply Z.eqb_eq in E0. intros _. exists q. split; [left; reflexivity|lia].
+  - cbn [andb]. destruct (count_by m q info <? n) eqn:E1.
+    + apply Z.ltb_lt in E1. intros _. exists q. split; [left; reflexivity|exact E1].
+    + intros H. destruct (IH H) as [p [Hp Hlt]]. exists p. split; [right; exact Hp|exact Hlt].
+Qed.
+
+(* ---- the whole sample-info validation *)
+
+Lemma validate_accept_iff norep n pops info :
+  fst (validate_info norep n pops info) = V_accept <->
+  (forall r, In r info -> offending pops r = false) /\
+  (forall p, In p (tl pops) -> count_label p info <> 0 /\ (norep = true -> n <= count_label p info)).
+Proof.
+  unfold validate_info, validate_info_by. destruct (find (offending pops) info) as [r|] eqn:F.
+  - cbn [fst]. split; [discriminate|]. intros [H _]. apply find_some in F. destruct F as [Hin Ho].
+    rewrite (H r Hin) in Ho. discriminate.
+  - rewrite cmp_accept_iff. split.
+    + intros H. split; [intros r Hr; exact (find_none _ _ F r Hr)|exact H].
+    + intros [_ H]. exact H.
+Qed.
+
+(* the clause, direction "rejects": no precondition at all *)
+Lemma insufficient_rejected n pops info :
+  (exists p, In p (tl pops) /\ count_label p info < n) ->
+  fst (validate_info true n pops info) <> V_accept.
+Proof.
+  intros H. unfold validate_info, validate_info_by. destruct (find (offending pops) info); [discriminate|].
+  apply cmp_rejects. exact H.
+Qed.
+
+(* the clause as an equivalence: on a sample-info file all of whose samples (of header populations)
+   are in the panel, --no_replacement is rejected iff some source population of the model has fewer
+   than n lines with exactly its label *)
+Lemma reject_iff n pops info :
+  (forall r, In r info -> offending pops r = false) -> 1 <= n ->
+  (fst (validate_info true n pops info) <> V_accept <->
+   exists p, In p (tl pops) /\ count_label p info < n).
+Proof.
+  intros Hoff Hn. split; [|apply insufficient_rejected].
+  unfold validate_info, validate_info_by. destruct (find (offending pops) info) as [r|] eqn:F.
+  - apply find_some in F. destruct F as [Hin Ho]. rewrite (Hoff r Hin) in Ho. discriminate.
+  - apply cmp_reject_only_if. exact Hn.
+Qed.
+
+(* the not-enough-samples verdict names a population that really is short of lines *)
+Lemma insufficient_verdict norep n pops info p :
+  validate_info norep n pops info = (V_insufficient, p) ->
+  norep = true /\ In p (tl pops) /\ 0 < count_label p info < n.
+Proof.
+  unfold validate_info, validate_info_by. destruct (find (offending pops) info); [discriminate|].
+  apply cmp_insufficient.
+Qed.
+
+Lemma pop_absent_verdict norep n pops info p :
+  validate_info norep n pops info = (V_pop_absent, p) ->
+  In p (tl pops) /\ forall r, In r info -> snd r <> p.
+Proof.
+  unfold validate_info, validate_info_by. destruct (find (offending pops) info); [discriminate|].
+  intros H. apply cmp_pop_absent in H. destruct H as [A B]. split; [exact A|]. apply count_label_zero. exact B.
+Qed.
+
+(* without --no_replacement only a population without any line (or a sample the panel lacks) is rejected *)
+Lemma replacement_accept_iff n pops info :
+  fst (validate_info false n pops info) = V_accept <->
+  (forall r, In r info -> offending pops r = false) /\
+  (forall p, In p (tl pops) -> exists r, In r info /\ snd r = p).
+Proof.
+  rewrite validate_accept_iff. split; intros [A B]; (split; [exact A|]); intros p Hp.
+  - destruct (B p Hp) as [Hc _]. destruct (existsb (fun r => snd r =? p) info) eqn:E.
+    + apply existsb_exists in E. destruct E as [r [Hr Er]]. apply Z.eqb_eq in Er. exists r. split; assumption.
+    + exfalso. apply Hc. apply count_label_zero. intros r Hr Er.
+      assert (existsb (fun r => snd r =? p) info = true) as X
+        by (apply existsb_exists; exists r; split; [exact Hr|apply Z.eqb_eq; exact Er]).
+      congruence.
+  - destruct (B p Hp) as [r [Hr Er]]. split; [|discriminate]. intros Hc.
+    apply (proj1 (count_label_zero p info) Hc r Hr Er).
+Qed.
+
+(* the order of the sample-info lines does not matter for the verdict class *)
+Lemma cmp_counts_only m norep n a b src :
+  (forall p, count_by m p a = count_by m p b) ->
+  check_model_pops m norep n a src = check_model_pops m norep n b src.
+Proof.
+  intros H. induction src as [|q src IH]; cbn [check_model_pops]; [reflexivity|]. rewrite H, IH. reflexivity.
+Qed.
+
+Lemma validate_perm norep n pops a b :
+  Permutation a b -> fst (validate_info norep n pops a) = fst (validate_info norep n pops b).
+Proof.
+  intros P. unfold validate_info, validate_info_by.
+  destruct (find (offending pops) a) as [r|] eqn:Fa; destruct (find (offending pops) b) as [s|] eqn:Fb.
+  - reflexivity.
+  - apply find_some in Fa. destruct Fa as [Hin Ho].
+    rewrite (find_none _ _ Fb r (Permutation_in _ P Hin)) in Ho. discriminate.
+  - apply find_some in Fb. destruct Fb as [Hin Ho].
+    rewrite (find_none _ _ Fa s (Permutation_in _ (Permutation_sym P) Hin)) in Ho. discriminate.
+  - rewrite (cmp_counts_only Z.eqb norep n a b); [reflexivity|]. intros p. apply count_by_perm. exact P.
+Qed.
+
+(* only the equality pattern of the labels matters: renaming the labels injectively
+   (any set of label strings with the same equalities) leaves the verdict class unchanged *)
+Section Rename.
+  Variable f : Z -> Z.
+  Hypothesis f_inj : forall x y, f x = f y -> x = y.
+  Definition rename_info (info : info_table) : info_table := map (fun r => (fst r, f (snd r))) info.
+
+  Lemma count_rename p info : count_label (f p) (rename_info info) = count_label p info.
+  Proof.
+    induction info as [|r info IH]; [reflexivity|]. cbn [rename_info map]. fold (rename_info info).
+    rewrite !count_label_cons, IH. cbn [snd].
+    destruct (snd r =? p) eqn:E.
+    - apply Z.eqb_eq in E. rewrite E, Z.eqb_refl. reflexivity.
+    - apply Z.eqb_neq in E. destruct (f (snd r) =? f p) eqn:E2; [|reflexivity].
+      apply Z.eqb_eq in E2. apply f_inj in E2. contradiction.
+  Qed.
+
+  Lemma memZ_rename x l : memZ (f x) (map f l) = memZ x l.
+  Proof.
+    destruct (memZ x l) eqn:E.
+    - apply memZ_spec. apply memZ_spec in E. apply in_map. exact E.
+    - destruct (memZ (f x) (map f l)) eqn:E2; [|reflexivity]. apply memZ_spec in E2. apply in_map_iff in E2.
+      destruct E2 as [y [Hy Hin]]. apply f_inj in Hy. subst y. apply memZ_spec in Hin. congruence.
+  Qed.
+
+  Lemma find_rename pops info :
+    find (offending (map f pops)) (rename_info info) =
+    option_map (fun r => (fst r, f (snd r))) (find (offending pops) info).
+  Proof.
+    induction info as [|r info IH]; [reflexivity|]. cbn [rename_info map find]. fold (rename_info info).
+    unfold offending at 1 3. cbn [fst snd]. rewrite memZ_rename.
+    destruct ((fst r <? 0) && memZ (snd r) pops); [reflexivity|exact IH].
+  Qed.
+
+  Lemma cmp_rename norep n info src :
+    fst (check_model_pops Z.eqb norep n (rename_info info) (map f src)) =
+    fst (check_model_pops Z.eqb norep n info src).
+  Proof.
+    induction src as [|q src IH]; [reflexivity|]. cbn [map check_model_pops].
+    fold (count_label (f q) (rename_info info)). fold (count_label q info). rewrite count_rename.
+    destruct (count_label q info =? 0); [reflexivity|].
+    destruct (norep && (count_label q info <? n)); [reflexivity|exact IH].
+  Qed.
+
+  Lemma validate_rename norep n pops info :
+    fst (validate_info norep n (map f pops) (rename_info info)) = fst (validate_info norep n pops info).
+  Proof.
+    unfold validate_info, validate_info_by. rewrite find_rename.
+    destruct (find (offending pops) info); [reflexivity|]. cbn [option_map].
+    replace (tl (map f pops)) with (map f (tl pops)) by (destruct pops; reflexivity). apply cmp_rename.
+  Qed.
+End Rename.
+
+(* a matching relation coarser than equality (substring, prefix, case folding: label 1 also
+   matches lines of label 2) accepts a panel in which population 1 has 1 line for 2 simulated samples *)
+Lemma coarser_match_refuted (m : Z -> Z -> bool) :
+  (forall p, m p p = true) -> m 1 2 = true ->
+  let info := [(0, 1); (1, 2); (2, 2)] in
+  fst (validate_info_by m true 2 [0; 1; 2] info) = V_accept /\
+  count_label 1 info < 2 /\
+  fst (validate_info true 2 [0; 1; 2] info) = V_insufficient.
+Proof.
+  intros Hr H12. cbv zeta. split; [|split; reflexivity].
+  unfold validate_info_by. cbn [find offending fst snd tl check_model_pops].
+  unfold count_by. cbn [filter snd]. rewrite !Hr, H12. destruct (m 2 1); reflexivity.
+Qed.
+
+Lemma nested_labels_example :
+  (* header: Admixed(0) EUR(1) EUR_S(2); 2 lines EUR, 3 lines EUR_S, 1 line of an unused label; 3 simulated samples *)
+  validate_info true 3 [0; 1; 2] [(0, 2); (1, 1); (2, 2); (3, 3); (4, 1); (5, 2)] = (V_insufficient, 1) /\
+  validate_info true 2 [0; 1; 2] [(0, 2); (1, 1); (2, 2); (3, 3); (4, 1); (5, 2)] = (V_accept, 0) /\
+  validate_info false 3 [0; 1; 2] [(0, 2); (1, 1); (2, 2); (3, 3); (4, 1); (5, 2)] = (V_accept, 0).
+Proof. repeat split; reflexivity. Qed.
+
+(* ---- soundness of the checkers evaluated on the implementation's verdict *)
+
+Lemma insufficient_spec k :
+  insufficient k = true <->
+  p_norep k = true /\ exists p, In p (tl (p_pops k)) /\ count_label p (p_info k) < p_nsamples k.
+Proof.
+  unfold insufficient. rewrite andb_true_iff, existsb_exists. split.
+  - intros [A [p [Hp Hlt]]]. apply Z.ltb_lt in Hlt. split; [exact A|]. exists p. split; assumption.
+  - intros [A [p [Hp Hlt]]]. split; [exact A|]. exists p. split; [exact Hp|]. apply Z.ltb_lt. exact Hlt.
+Qed.
+
+Lemma holds_params_sound k :
+  holds_params k = true ->
+  (p_norep k = true ->
+   (exists p, In p (tl (p_pops k)) /\ count_label p (p_info k) < p_nsamples k) ->
+   fst (p_verdict k) <> V_accept) /\
+  (fst (p_verdict k) = V_insufficient ->
+   p_norep k = true /\ exists p, In p (tl (p_pops k)) /\ count_label p (p_info k) < p_nsamples k).
+Proof.
+  unfold holds_params. intros H. apply andb_true_iff in H. destruct H as [H1 H2]. split.
+  - intros Hn Hex Hv. assert (I : insufficient k = true) by (apply insufficient_spec; split; assumption).
+    rewrite I, Hv in H1. cbn in H1. discriminate.
+  - intros Hv. rewrite Hv in H2. cbn [negb orb] in H2. rewrite Z.eqb_refl in H2. cbn in H2.
+    apply insufficient_spec. exact H2.
+Qed.
+
+Lemma pair_eqb_ZZ (x y : Z * Z) : pair_eqb Z.eqb Z.eqb x y = true -> x = y.
+Proof.
+  destruct x as [a b], y as [c d]. unfold pair_eqb. cbn [fst snd]. intros H. apply andb_true_iff in H.
+  destruct H as [H1 H2]. apply Z.eqb_eq in H1. apply Z.eqb_eq in H2. subst. reflexivity.
+Qed.
+
+(* agreement transfers the model's theorem to the observed verdict *)
+Lemma params_agree_transfers k :
+  fst (check_params k) = true -> p_norep k = true ->
+  (forall r, In r (p_info k) -> offending (p_pops k) r = false) -> 1 <= p_nsamples k ->
+  (fst (p_verdict k) <> V_accept <->
+   exists p, In p (tl (p_pops k)) /\ count_label p (p_info k) < p_nsamples k).
+Proof.
+  unfold check_params. cbn [fst]. intros H Hn Hoff H1. apply pair_eqb_ZZ in H. rewrite <- H.
+  unfold model_params. rewrite Hn. apply reject_iff; assumption.
+Qed.
+
+(* the command: an insufficient panel stops it before simulate_gt and before any file is written;
+   what output_vcf wrote (if it ran) re-uses no reference haplotype *)
+Lemma holds_cli_sound k :
+  holds_cli k = true ->
+  holds_params (c_p k) = true /\
+  (insufficient (c_p k) = true -> c_sim k = false /\ c_wrote k = false) /\
+  (forall o, c_o k = Some o -> holds_norep o = true).
+Proof.
+  unfold holds_cli. intros H. apply andb_true_iff in H. destruct H as [H H3].
+  apply andb_true_iff in H. destruct H as [H1 H2]. split; [exact H1|]. split.
+  - intros I. rewrite I in H2. cbn [negb orb] in H2. apply andb_true_iff in H2. destruct H2 as [A B].
+    apply negb_true_iff in A. apply negb_true_iff in B. split; assumption.
+  - intros o Ho. rewrite Ho in H3. exact H3.
 Qed.
